@@ -7,6 +7,7 @@ import Lemmas.RateLimiterAnswers
 import Lemmas.RateLimiterContrast
 import Lemmas.RateLimiterWitness2
 import Lemmas.RateLimiterWindow
+import Lemmas.RateLimiterRW
 /-! # C16 — the rate limiter never grants more than any applicable cap and never hangs
 
 Property theorems only.  The model is `Model/RateLimiter.lean`: the transition relation `RL.Step`, in which
@@ -549,6 +550,20 @@ theorem answer_send_never_blocks (c : Nat) (s : S) (h : Reachable c s) (id : Nat
   have := answer_exactly_once c s h id
   split at this <;> omega
 
+/-- **every send on an answer channel finds room** (the step-level form of `answer_send_never_blocks`; the answer channels
+    are not objects of the model: `chanLoad s id` counts the values sent so far on the channel of request `id`, as if
+    the caller never received, and `answerChanCap` — 1 — is compared with `cap()` of the channel the code returns on every
+    run): whichever step of whichever goroutine sends an answer, the channel was EMPTY before and holds no more than
+    its capacity afterwards — a send under the lock cannot block the holder -/
+theorem every_send_finds_room (c : Nat) (s s' : S) (h : Reachable c s) (st : Step s s') (id : Nat)
+    (hsend : chanLoad s id < chanLoad s' id) : chanLoad s id = 0 ∧ chanLoad s' id ≤ answerChanCap := by
+  have a := answer_exactly_once c s h id
+  have a' := answer_exactly_once c s' (.step _ _ h st) id
+  have e : answerChanCap = 1 := rfl
+  unfold chanLoad at hsend ⊢
+  rw [e]
+  split at a <;> split at a' <;> omega
+
 /-- **the ticker's guard `c.root.capacity-c.root.used > 0` is redundant** on every reachable state: only amounts ≥ 1 are
     ever queued and the root is on every chain, so the service loop without the guard (`RL.serviceNG`; the rewrite
     `seeded/control-ind6-c16` drops it) answers, charges and keeps exactly what the loop with the guard does -/
@@ -719,6 +734,115 @@ theorem window_exploration_is_complete (n : Nat) (s s' : S) (ths : List (List Mi
     some s' ∈ explore fuel s ths ∧ (∀ t m, enabledM t m = false → micro t m = t) :=
   ⟨explore_complete h fuel hf, micro_of_not_enabled⟩
 
+/-- **`Cap(true)` follows `SetCap` at any depth** (round 7, `seeded/ind7-c16-a`; `cap_true_is_smallest_cap_of_chain` is about
+    every reachable state, i.e. any tree and any history of `SetCap` anywhere in it — this is its instance two levels
+    up): root 9 → child 8 → grandchild 7; after `SetCap(3)` on the ROOT the grandchild's `Cap(true)` is 3, and a request of
+    5 on the grandchild — between the new and the old cap — is refused at once, not queued -/
+theorem cap_true_follows_setcap_at_any_depth :
+    capOf depth3 2 true = 7 ∧ capOf depth3Set 2 true = 3 ∧ capOf depth3Set 1 true = 3 ∧ depth3Set.chain 2 = [2, 1, 0] ∧
+    exec depth3Set (.use 2 5) = answer depth3Set .errCap := by
+  refine ⟨by decide, by decide, by decide, by decide, ?_⟩
+  exact use_above_chain_cap_fails_at_once depth3Set (by decide) 2 5 (by decide) (by decide) (by decide)
+    (Or.inr ⟨0, by decide, by decide⟩)
+
+/-- **contrast — a cached cap refreshed one level deep goes stale** (`RL.refreshOneLevel`: the cache of `seeded/ind7-c16-a`,
+    refreshed by `SetCap(l)` for `l` and its direct children): on the same tree the root and the child see 3, the
+    grandchild keeps 7; a request of 5 passes the cached test and is queued, and it can never be granted — it does not fit
+    whatever has been used — so it waits for ever -/
+theorem cache_refreshed_one_level_goes_stale :
+    let cache0 : Nat → Nat := fun x => capOf depth3 x true
+    let cache := refreshOneLevel depth3Set cache0 0
+    cache 0 = 3 ∧ cache 1 = 3 ∧ cache 2 = 7 ∧ capOf depth3Set 2 true = 3 ∧
+    (5 ≤ cache 2 ∧ ∀ used, fits depth3Set.cap used (depth3Set.chain 2) 5 = false) := by
+  refine ⟨by decide, by decide, by decide, by decide, by decide, ?_⟩
+  intro used
+  have hc : depth3Set.chain 2 = [2, 1, 0] := by decide
+  have h0 : depth3Set.cap 0 = 3 := by decide
+  simp only [fits, hc, List.all_cons, List.all_nil, h0, Bool.and_true]
+  have : decide (used 0 + 5 ≤ 3) = false := by simp
+  rw [this]; simp
+
+/-- **the accounts survive a child's `Close`** (round 7, `seeded/ind7-c16-b`): in every interleaving, the step in which a
+    child is closed changes no limiter's `used` and no grant; afterwards the amount granted in any period under any
+    limiter — every ancestor of the closed child included — is still within the largest cap in force, and `used` still
+    accounts for every grant of the current period: what a closed child was granted stays charged to its ancestors
+    until the next tick -/
+theorem child_close_conserves_accounts (c : Nat) (s : S) (h : Reachable c s) (l : Nat) (hl : l < s.n) (h0 : l ≠ 0)
+    (ha : s.holder = .api) (ho : s.closed l = false) :
+    let s' := unlock (doCloseChild s l)
+    s'.used = s.used ∧ s'.glog = s.glog ∧ (∀ p x, gsum p x s'.glog ≤ s'.capMax p x) ∧
+    (∀ x, gsum s'.ticks x s'.glog ≤ s'.used x) := by
+  have h' : Reachable c (unlock (doCloseChild s l)) := .step _ _ h (.closeChild s l hl h0 ha ho)
+  exact ⟨rfl, rfl, fun p x => granted_le_max_cap_in_force c _ h' p x, fun x => (used_is_sum_of_grants c _ h' x).1⟩
+
+/-- **contrast — "settling the account" at `Close` grants the capacity twice** (`RL.closeSettle`: the child's `used` is
+    subtracted from its ancestors): root and child of capacity 2, the child is granted 2, a request of 1 on the root
+    waits; the child is closed with settling, and a request of 2 on the root is granted in the same period — 4 granted
+    under a root of capacity 2, no `SetCap`; with the code's `Close` the same request waits -/
+theorem settling_the_account_grants_twice :
+    let s1 := exec (run (init 2) [.newChild 0 2, .use 1 2]) (.use 0 1)
+    let s2 := exec (closeSettle s1 1) (.use 0 2)
+    s1.waiting.length = 1 ∧ s2.answered = [(2, .ok), (0, .ok)] ∧ gsum 0 0 s2.glog = 4 ∧ s2.cap 0 = 2 ∧ s2.ticks = 0 ∧
+    s2.setCaps = 0 ∧
+    (exec (exec s1 (.close 1)) (.use 0 2)).waiting.length = 2 := by
+  decide
+
+/-- **concurrent readers are inside the model** (this replaces "read locks are treated as exclusive"): the calls that are
+    one bracket of `controller.lock` — `Cap`, `LastUsed`, `Closed` under `RLock`; `Use` (two micro-steps: the tests and the
+    decision, then the charge or the append), `Limiter.New`, `SetCap`, child `Close`, the body of a tick under `Lock` —
+    run on the readers-writer machine `RW.step` (`Model/RWMutex.lean`: any number of readers inside their brackets at
+    once, a writer only alone, ANY schedule).  In every reachable configuration, readers possibly still inside:
+    whenever no writer is inside, the limiter state is that of making the calls one at a time through `RL.exec`
+    (`callRun`) in the order in which they acquired the lock; every goroutine outside a bracket has exactly the results
+    that one-at-a-time execution gives it; the acquisition order respects program order; a writer is alone. -/
+theorem concurrent_readers_linearizable (s₀ : S) (progs : Nat → List Call) (sch : List Nat)
+    (c : RW.Config S Call PC Ret) (he : RW.exec callSys Call.isRead (RW.init s₀ progs) sch = some c) :
+    (c.writer = none → c.shared = (Mutex.seqExec callRun s₀ c.acq).2) ∧
+    (∀ t, (c.threads t).cur = none → (c.threads t).res = Mutex.resOf t (Mutex.seqExec callRun s₀ c.acq).1) ∧
+    (∀ t, Mutex.opsOf t c.acq ++ (c.threads t).todo = progs t) ∧
+    (∀ t, c.writer = some t → c.readers = []) :=
+  RW.linearizable callSys Call.isRead callRun ReadPC callSys_runs callSys_readOnly s₀ progs sch c he
+
+/-- non-vacuity (`rwStart`: root 3, child 9, one unit granted to the child; `rwProgs`: `Cap(1, true)`, `LastUsed(0)`, `Use(1, 2)`
+    on three goroutines): `Cap(true)` and `LastUsed` ARE inside their brackets at the same time (`readers = [1, 0]`) and keep the
+    goroutine calling `Use` out; run to the end, the three calls return 3, 0 and nil and the root has used 3 -/
+theorem readers_overlap_and_keep_the_writer_out :
+    (∃ c, RW.exec callSys Call.isRead (RW.init rwStart rwProgs) [0, 1] = some c ∧ c.readers = [1, 0] ∧
+      RW.step callSys Call.isRead c 2 = none) ∧
+    (∃ c, RW.exec callSys Call.isRead (RW.init rwStart rwProgs) [0, 1, 0, 1, 1, 0, 2, 2, 2, 2] = some c ∧
+      (c.threads 0).res = [.num 3] ∧ (c.threads 1).res = [.num 0] ∧ (c.threads 2).res = [.answer (some .ok)] ∧
+      c.shared.used 0 = 3 ∧ c.readers = [] ∧ c.writer = none) := by
+  refine ⟨⟨_, rfl, by decide, by decide⟩, ⟨_, rfl, by decide, by decide, by decide, by decide, by decide, by decide⟩⟩
+
+/-- **contrast — a write under a read lock is not linearizable** (`twoUsers`: two goroutines, each `Use(2)` on a root of
+    capacity 2): the same machine with `Use` admitted like a reader
+    (`isRead := fun _ => true`, i.e. `Use` written with `RLock`): both goroutines pass `available >= amount` before either
+    charges, both are answered nil and the root of capacity 2 has used 4 — whereas calling them one at a time in their
+    acquisition order grants one and queues the other -/
+theorem write_under_a_read_lock_is_not_linearizable :
+    ∃ c, RW.exec callSys (fun _ => true) (RW.init (init 2) twoUsers) [0, 0, 1, 1, 0, 1, 0, 1] = some c ∧
+      c.readers = [] ∧ (c.threads 0).res = [.answer (some .ok)] ∧ (c.threads 1).res = [.answer (some .ok)] ∧
+      c.shared.used 0 = 4 ∧ c.shared.cap 0 = 2 ∧
+      (Mutex.seqExec callRun (init 2) c.acq).2.used 0 = 2 ∧
+      (Mutex.seqExec callRun (init 2) c.acq).2.waiting.length = 1 := by
+  refine ⟨_, rfl, by decide, by decide, by decide, by decide, by decide, by decide, by decide⟩
+
+/-- **the read-lock window the driver runs is a schedule of that machine** (lines `rwin` of area `burst`: the harness holds
+    the lock in read mode, the readers return while it does, the writer is kept out until it lets go): the
+    configuration `RL.rwWindow` ends in is reached from the initial one by steps of `RW.step`, so
+    `concurrent_readers_linearizable` speaks about what the driver prints and the Go code is compared with -/
+theorem rw_window_is_a_schedule (s : S) (reads : List Call) (w : Call) :
+    ∃ sch, RW.exec callSys Call.isRead (RW.init s (rwProgsOf reads w)) sch = some (rwWindow s reads w).cfg :=
+  rwWindow_is_a_schedule s reads w
+
+/-- … and on the example the window shows what it is for: both readers return (3 and 0) while the harness' own read
+    bracket is open, the writer is kept out (`blocked`), and in the end it is granted -/
+theorem rw_window_example :
+    let o := rwWindow rwStart [.cap 1 true, .lastUsed 0] (.use 1 2)
+    o.reads = [[.num 3], [.num 0]] ∧ o.blocked = true ∧ o.wres = [.answer (some .ok)] ∧ o.cfg.shared.used 0 = 3 ∧
+    o.cfg.readers = [] ∧ o.cfg.writer = none := by
+  decide
+
 /-! non-vacuity: a concrete run (root cap 5, child cap 9 above its parent): the second `Use(3)` on the child waits
     although the child has room, is served by the tick, and `LastUsed` of the root reports 4. -/
 example :
@@ -732,6 +856,13 @@ example :
 example :
     let s := run (initGo (-7)) [.newChild 0 9, .use 1 1, .setCap 0 3, .use 1 2, .setCap 1 (-1), .use 1 1]
     s.answered = [(2, .errCap), (1, .ok), (0, .errCap)] ∧ capOf s 1 true = 0 ∧ s.cap 0 = 3 := by
+  decide
+
+/-! sends that do happen: the tick's answer to the waiting request 1 takes its channel from empty to full, and a second
+    value on it would not fit (`answerChanCap = 1`) -/
+example :
+    let s := runMicros (run (init 2) [.use 0 2, .use 0 1]) [.tickFires, .tickLock]
+    chanLoad s 1 = 0 ∧ chanLoad (micro s .tickRuns) 1 = 1 ∧ ¬ (chanLoad (micro s .tickRuns) 1 < answerChanCap) := by
   decide
 
 /-! a schedule inside the Close-vs-tick window: the tick fires, root `Close` marks the tree while the ticker goroutine
